@@ -2,6 +2,7 @@ import Pcore.Props.C20
 open Pcore.Format
 #print axioms C20_letters
 #print axioms C20_directive_go
+#print axioms C20_unparse_go
 #print axioms C20_total_map
 #print axioms C20_total
 #print axioms C20_total_fails_number_limit
